@@ -1182,6 +1182,15 @@ def run(chk):
     n9 = c10.check_exact_end(chk, 'R08.9')
     n10 = check_section_sequences(chk, rtu)
     n11 = check_empty_vectors(chk, rtu)
+    # R08.13: equivalent encodings of a locals vector - a run of zero locals (`0 x i32`) declares nothing: a function whose locals vector
+    # contains empty runs has the same local types as without them (typing of the locals decided on several shapes; rule shared with
+    # C03 R03.5)
+    from . import c03 as _c03, c01 as _c01
+    tus3 = emit.translator_tus(('c.c', 'opcode.c', 'instruction.c'), chk=chk)
+    it3 = emit.make_interp(tus3)
+    tabs3 = _c01.read_type_tables(chk, tus3[0], it3, _c01.value_types(it3), 'R08.13')
+    _c03.check_local_groups(chk, it3, tabs3, rule='R08.13')
+    chk.floor('R08.13', 10)
     # R08.12: non-minimal LEB128 encodings are valid encodings - every instruction with immediates, translated with the real decoders
     # from its minimal and from a padded byte encoding (live and dead code), gives the same text, stack effect, result and consumes
     # the same instructions
